@@ -1,2 +1,20 @@
+"""C14 deep rule R2: cached Theory answers are never mutated (shared run with C13 R1d)."""
+from . import c13_deep
+
+
 def run(ctx):
-    pass
+    if not ctx.want("R2"):
+        return
+    rs = ctx.rule("R2", "analysing a term leaves the cached theories of its sub-terms unchanged")
+    for res in c13_deep.results():
+        for shape, kind, detail, result in res:
+            if kind == "stale":
+                ctx.finding(rs, "TheoryOracle|cached-answer-mutated|%s" % shape,
+                            "after get_theory(%s) the memoised theory of a sub-term was modified in place (%s): later "
+                            "queries on formulas sharing that sub-term see the modified theory" % (shape, detail),
+                            "pysmt/oracles.py")
+            elif kind in ("valid", "invalid"):
+                rs.ok({"shape": shape, "memoised_subterms": "unchanged"})
+            elif kind not in ("vacuous",):
+                rs.unrec("get_theory(%s): %s" % (shape, detail[:100]))
+    ctx.floor(rs, 45)
